@@ -71,12 +71,15 @@ struct C13 : Prop {
 				std::vector<const cfg::Board *> bs; for (auto &b : w.boards) if (b.present && !b.addr.empty()) bs.push_back(&b);
 				if (!bs.empty()) {
 					const cfg::Board *b = bs[r.below(bs.size())];
-					J sev = J::arr(); int t = (int) r.range(0, 300000);
+					// (either from the very beginning - most of it then falls into the connection probe and is discarded - or right into the node-table read-out,
+					// which begins about 2.2 s after the call)
+					bool during_enum = r.coin();
+					J sev = J::arr(); int t = during_enum ? (int) r.range(2150000, 2350000) : (int) r.range(0, 300000);
 					std::vector<uint8_t> pa(b->addr.begin(), b->addr.end() - 1);
 					J nn = J::obj(); nn.set("at_us", t); nn.set("node", pc::jaddr(pa)); nn.set("type", (int) MSG_NODE_NEW);
 					J d = J::arr(); d.push((int) r.range(2, 200)); d.push((int) b->addr.back()); for (int q = 0; q < 7; q++) d.push((int) b->uid[q]); nn.set("data", d); sev.push(nn);
 					cfg::World one; one.boards.push_back(*b); one.trains = w.trains;
-					for (int q = 0, n = (int) r.range(2, 12); q < n; q++) { t += (int) r.range(1000, 150000); sev.push(api::uplink_event(r, one, t)); }
+					for (int q = 0, n = (int) r.range(2, 12); q < n; q++) { t += during_enum ? (int) r.range(1000, 40000) : (int) r.range(1000, 150000); sev.push(api::uplink_event(r, one, t)); }
 					se.set("start_bus", sev);
 				}
 			}
